@@ -65,6 +65,7 @@ CHECKS = {
         "level_note": "Interleavings are explored at the granularity of quiescence points plus the hooked window, not all schedules; after garbage only crash-freedom, census and cleanup are checked; a half-closed connection is not required to receive outstanding responses.",
         "jobs": [rapid("server", "TestC08Availability", 1500, 8000, timeout_s={"quick": 600, "thorough": 1700}),
                  rapid("server", "TestC08HTTP", 2000, 20000, shards=4),
+                 rapid("server", "TestC08TLS", 300, 3000, shards=4),
                  dict(rapid("server", "TestC08Stress", 60, 300, shards=4), race=True)],
         "assumptions": ["handlers that ignore their context keep their connection's goroutine until they return (fake time is advanced past them before the census)"],
     },
